@@ -222,7 +222,9 @@ def PROOFS():
     K = "formulae.categorical."
     return [("vf.contracts.categorical_c", [K + "ContrastMatrix.__init__", K + "Treatment.code_with_intercept",
                                             K + "Treatment.code_without_intercept"]),
-            ("vf.contracts.utils_c", utils_c.FUNCTIONS), ("vf.contracts.terms_c", terms_c.FUNCTIONS)]
+            ("vf.contracts.utils_c", utils_c.FUNCTIONS),
+            ("vf.contracts.terms_c", ["formulae.terms.terms.GroupSpecificTerm.eval_new_data"]),
+            ("vf.contracts.variable_c", ["formulae.terms.variable.Variable.labels", "formulae.terms.call.Call.labels"])]
 
 
 def run(report, findings):
